@@ -582,15 +582,64 @@ def routing(ctx, db, rid_='C19.routing'):
         ctx.ob(rid, f, f['key'], ok, 'operator delete calls Allocator::dealloc(ptr, sz)', desc='promise operator delete does not call dealloc(ptr, sz)', inst=f['inst'])
 
 
-def _is_ceil_div(e):
-    """is the expression ceil(sz / K) for one item size K (a constant local, a sizeof, a literal)?"""
+def _ceil_div_item(e):
+    """the item size K when the expression is ceil(sz / K) for one item size K (a constant local, a sizeof, a literal); None otherwise"""
     e = re.sub(r'\s+', '', e or '')
     K = r'(local:\w+(?:#\d+)?|global:[\w:<>,*&]+|sizeof\(.*?\)|\d+)'
     m = re.fullmatch(r'\(\(\(param:sz\+%s\)-1\)/%s\)' % (K, K), e) or re.fullmatch(r'\(\(param:sz\+\(%s-1\)\)/%s\)' % (K, K), e)
     if m:
-        return m.group(1) == m.group(2)
+        return m.group(1) if m.group(1) == m.group(2) else None
     m = re.fullmatch(r'\(\(param:sz\+(\d+)\)/(\d+)\)', e)
-    return bool(m) and int(m.group(1)) == int(m.group(2)) - 1
+    return m.group(2) if m and int(m.group(1)) == int(m.group(2)) - 1 else None
+
+
+def _is_ceil_div(e):
+    """is the expression ceil(sz / K) for one item size K (a constant local, a sizeof, a literal)?"""
+    return _ceil_div_item(e) is not None
+
+
+# sizes of the fundamental types on the analysed target (x86-64 Linux, LP64) - what the extractor's compiler evaluated sizeof with
+_SIZEOF = {'char': 1, 'signed char': 1, 'unsigned char': 1, 'bool': 1, '_Bool': 1, 'std::byte': 1, 'char8_t': 1, 'short': 2, 'unsigned short': 2, 'char16_t': 2, 'int': 4, 'unsigned int': 4,
+           'unsigned': 4, 'char32_t': 4, 'wchar_t': 4, 'float': 4, 'long': 8, 'unsigned long': 8, 'long long': 8, 'unsigned long long': 8, 'double': 8, 'long double': 16,
+           'std::size_t': 8, 'size_t': 8, 'std::uint8_t': 1, 'std::int8_t': 1, 'std::uint16_t': 2, 'std::int16_t': 2, 'std::uint32_t': 4, 'std::int32_t': 4, 'std::uint64_t': 8,
+           'std::int64_t': 8, 'std::uintptr_t': 8, 'std::max_align_t': 32}
+
+
+def _element_size(buffer_type):
+    """(element type, its size) of a contiguous standard buffer type (std::vector<T>, std::basic_string<T>, std::array<T, n>, std::span<T>): the
+    first template argument is what data() points to"""
+    t = re.sub(r'\b(class|struct|const)\b', ' ', buffer_type or '')
+    t = re.sub(r'\s+', ' ', t).strip().rstrip('&').strip()
+    m = re.match(r'std::(?:__cxx11::)?(vector|basic_string|array|span|basic_string_view)<(.*)>$', t)
+    if not m:
+        return None, None
+    depth = 0; arg = ''
+    for ch in m.group(2):
+        if ch == ',' and depth == 0:
+            break
+        depth += ch == '<'; depth -= ch == '>'
+        arg += ch
+    arg = arg.strip()
+    if arg.endswith('*'):
+        return arg, 8
+    return arg, _SIZEOF.get(arg)
+
+
+def _item_value(db, tr, i, K):
+    """the compile-time value of the item size K as used at tr[i]: a literal, a constant of the library, a sizeof of a fundamental type, or a
+    constant local / helper local whose initialiser the compiler evaluated"""
+    if re.fullmatch(r'\d+', K):
+        return int(K)
+    if K.startswith('global:'):
+        v = db.consts.get(K[7:])
+        return v if isinstance(v, int) else None
+    m = re.fullmatch(r'sizeof\((.*)\)', K)
+    if m:
+        return _SIZEOF.get(re.sub(r'\b(const|volatile)\b', '', m.group(1)).strip())
+    for x in reversed(tr[:i]):
+        if x.k == 'decl' and (x.get('var') or '') in (K, K.replace('local:', '')):
+            return x.get('const') if isinstance(x.get('const'), int) and not isinstance(x.get('const'), bool) else None
+    return None
 
 
 def buffer_storage(ctx, db):
@@ -602,6 +651,35 @@ def buffer_storage(ctx, db):
         t_ = (fl or {}).get('type') or ''
         ctx.ob(rid, 'cocls::reusable_buffer_storage', c_['loc'], fl is not None and t_.rstrip().endswith('&'), 'the adapter refers to the caller\'s buffer (%s)' % t_,
                desc='reusable_buffer_storage keeps a private copy of the buffer: the caller\'s buffer never warms up and frames live in an object that dies with the adapter')
+    rid2 = ctx.rule('C19.buffer-item-is-element', 'LINEAR', 'reusable_buffer_storage::alloc, in every instantiation: the item size K that the item count ceil(sz / K) divides by is the size of one '
+                    'ELEMENT of the buffer (the pointee of data()): resize(items) then provides items * sizeof(element) >= sz bytes. A larger divisor (the size of the pointer, of the '
+                    'buffer object ...) makes the buffer smaller than the frame placed in it', floor=1)
+    for f in db.need('cocls::reusable_buffer_storage::alloc'):
+        c_ = next((c for c in db.class_insts('cocls::reusable_buffer_storage') if c.get('inst') == f.get('class_inst')), None)
+        fl = c_ and (next((x for x in c_['fields'] if x['name'] == '_buff'), None) or next((x for x in c_['fields'] if re.search(r'std::', x.get('canon_type') or x.get('type') or '')), None))
+        if not fl:
+            raise Broken('reusable_buffer_storage::alloc (%s): the buffer member of its class is not in the facts' % f.get('inst'))
+        et, es = _element_size(fl.get('canon_type') or fl.get('type'))
+        if es is None:
+            raise Broken('reusable_buffer_storage<%s>: the size of the buffer element type (%s) is not known to the rule' % (fl.get('type'), et))
+        bad = None; seen_k = 0
+        for tr in [t for t in T.traces(f) if live(t)]:
+            # every value the path computes that has the ceiling-division form: the initialiser of the count, what a helper returns
+            for i, it in enumerate(tr):
+                e_ = it.get('init') if it.k == 'decl' else it.get('path') if it.k == 'return' and it.get('depth', 0) > 0 else None
+                K = _ceil_div_item(e_) or _ceil_div_item(re.sub(r'^\((.*)\)$', r'\1', re.sub(r'\s+', '', e_ or '')))
+                if not K:
+                    continue
+                v = _item_value(db, tr, i, K)
+                if v is None:
+                    raise Broken('reusable_buffer_storage::alloc: the item size %s is not a compile-time constant the facts carry' % K)
+                seen_k += 1
+                if v != es:
+                    bad = bad or ('the item count divides by %d bytes but one element of the buffer (%s) has %d: %s' % (v, et, es, 'the buffer is resized to fewer bytes than the frame needs' if v > es
+                                                                                                                      else 'the buffer is grown to a multiple of what is needed'), tr[:i + 1])
+        if not seen_k:
+            raise Broken('reusable_buffer_storage::alloc: no ceiling division of sz by an item size found on its paths')
+        ctx.ob(rid2, f, f['key'], bad is None, 'item size = sizeof(%s) = %d' % (et, es) + ('' if not bad else ' -- ' + bad[0]), desc=bad[0] if bad else None, trace=fmt_trace(bad[1]) if bad else None, inst=f['inst'])
     for f in db.need('cocls::reusable_buffer_storage::alloc')[:1]:
         bad = None; ng = nk = 0
         for tr in [t for t in T.traces(f) if live(t)]:
